@@ -100,7 +100,7 @@ def run(tier, wd):
             if v.startswith("known:"):
                 rep.known(v[6:], "%s %s" % (specs[grp["members"][0]["si"]]["str"], grp["members"][0]["argv"]))
             elif v.startswith("violation"):
-                rep.violation("%s spec=%r: %s" % (grp["rel"], specs[grp["members"][0]["si"]]["str"], v[10:]), gc.replay_obj([p], specs, grp, rs, v))
+                rep.violation("%s spec=%r: %s" % (grp["rel"], specs[grp["members"][0]["si"]]["str"], v[10:]), gc.replay_obj([p], specs, grp, rs, v, pr))
             if any(x["acc"] for x in pr["preds"]):
                 nontriv += 1
                 if len(rep.cov["samples"]) < 6 and rnd.random() < 0.02:
@@ -124,6 +124,5 @@ def replay(path, wd):
     with open(path) as f:
         o = json.load(f)["replay"]
     if o["rel"] == "single":
-        print("replay of a verbatim case needs the reference prediction: rerun ./check C09")
-        return gc.rerun_replay(path, wd)
+        return gc.rerun_replay(path, wd, law="oracle")
     return gc.rerun_replay(path, wd)
